@@ -205,6 +205,18 @@ func (m *Machine) Explore(fn *ssa.Function) *Result {
 		default:
 			panic(fmt.Sprintf("interpreter failure: %T %v", outcome, outcome))
 		}
+		if os.Getenv("SYMGO_TRAIL") != "" {
+			fmt.Fprintf(os.Stderr, "PATH %d outcome=%T\n", res.Paths, outcome)
+			for k, d := range x.trail {
+				if len(d.alts) > 1 {
+					a := d.alts[d.choice]
+					if len(a) > 100 {
+						a = a[:100]
+					}
+					fmt.Fprintf(os.Stderr, "  d%d choice %d/%d: %s\n", k, d.choice, len(d.alts), a)
+				}
+			}
+		}
 		res.Paths++
 		res.Steps += m.i.steps
 		if m.i.nontrivial {
@@ -327,6 +339,9 @@ func (i *interpreter) cond(v value) bool {
 			return true
 		case "false":
 			return false
+		}
+		if pat := os.Getenv("SYMGO_WATCH"); pat != "" && strings.Contains(c.e, pat) {
+			fmt.Fprintf(os.Stderr, "WATCH %s\n  at %s\n", c.e, i.curStack)
 		}
 		return i.x.decide([]string{c.e, symNot(c).e}) == 0
 	}
